@@ -21,7 +21,9 @@ Record zlike (A : arith) (S : Z) := {
   r_gev_exact : exact A = false -> forall a b, gev A a b = (raw b <=? raw a);
   r_eqv_exact : exact A = false -> forall a b, eqv A a b = (raw a =? raw b);
   (* a multiplier compares equal to one exactly when it is one (also under the fuzzy Guarded comparison) *)
-  r_eqv_one : forall a n, raw a = n * S -> eqv A a (of_int A 1) = (n =? 1)
+  r_eqv_one : forall a n, raw a = n * S -> eqv A a (of_int A 1) = (n =? 1);
+  r_kmuldiv0 : forall a b c up, raw c = 0 -> kmuldiv A a b c up = Raise ZeroDivisionError;
+  r_eps : 0 <= raw (epsilon A)
 }.
 Arguments raw {A S}.
 
@@ -35,7 +37,7 @@ Lemma zlike_fixed p d : 0 <= p -> zlike (Fixed p d) (10 ^ p).
 Proof.
   intros Hp. pose proof (pow10_pos'' p Hp) as HS.
   assert (HS': f_scale (mk_fixed_cls p d) <> 0) by (cbn; lia).
-  refine {| raw := fun a : T (Fixed p d) => (a : Z) |}; cbn [Fixed T of_int add sub mulv divv kmuldiv ltv gev eqv exact rnd_of].
+  refine {| raw := fun a : T (Fixed p d) => (a : Z) |}; cbn [Fixed T of_int add sub mulv divv kmuldiv ltv gev eqv exact rnd_of epsilon].
   - auto.
   - exact HS.
   - intros n. reflexivity.
@@ -50,6 +52,8 @@ Proof.
   - intros _ a b. unfold res_true, FixedKernels.dunder_eq, operand_value, bind. destruct (a =? b); reflexivity.
   - intros a n Ha. cbn in Ha. unfold res_true, FixedKernels.dunder_eq, operand_value, bind. cbn [FixedKernels.init FixedKernels.init_r f_scale mk_fixed_cls].
     subst a. destruct (n * 10 ^ p =? 1 * 10 ^ p) eqn:E; destruct (n =? 1) eqn:E2; try reflexivity; nia.
+  - intros a b c up Hc. cbn in Hc. subst c. unfold FixedKernels.muldiv. cbn [FixedKernels.init FixedKernels.init_r]. cbv zeta. unfold pydivmod. cbn [Z.eqb bind]. reflexivity.
+  - cbn. lia.
 Defined.
 
 Lemma zlike_guarded p g d s : 0 <= p -> 0 <= g -> zlike (Guarded p g d s) (10 ^ (p + g)).
@@ -57,7 +61,7 @@ Proof.
   intros Hp Hg. pose proof (pow10_pos'' (p + g) ltac:(lia)) as HS.
   set (st := mk_guarded_cls p g d s).
   assert (HS': g_scale st = 10 ^ (p + g)) by reflexivity.
-  refine {| raw := fun a : T (Guarded p g d s) => (a : Z) |}; cbn [Guarded T of_int add sub mulv divv kmuldiv ltv gev eqv exact rnd_of]; fold st.
+  refine {| raw := fun a : T (Guarded p g d s) => (a : Z) |}; cbn [Guarded T of_int add sub mulv divv kmuldiv ltv gev eqv exact rnd_of epsilon]; fold st.
   - auto.
   - exact HS.
   - intros n. reflexivity.
@@ -96,4 +100,7 @@ Proof.
     + assert (n = 1) by lia. subst n. rewrite Z.sub_diag. change (Z.abs 0) with 0.
       destruct (0 <? g_geps st) eqn:E3; [reflexivity|lia].
     + assert (10 ^ (p + g) <= Z.abs (n * 10 ^ (p + g) - 1 * 10 ^ (p + g))) by nia. lia.
+  - intros a b c up Hc. cbn in Hc. subst c. unfold GuardedKernels.muldiv. cbn [GuardedKernels.init GuardedKernels.init_r]. cbv zeta.
+    unfold pydivmod, pydiv. cbn [Z.eqb bind]. destruct (truthy (g_guard st)); reflexivity.
+  - cbn. lia.
 Defined.
